@@ -123,7 +123,14 @@ def Fs.modify (s : Fs) (p : Path) (f : Inode → Inode) : Fs :=
 def Fs.step (s : Fs) : FsOp → Fs
   | .create p =>
     { s with next := s.next + 1, data := aset s.next {} s.data, dir := aset p s.next s.dir }
-  | .extend p => s.modify p (fun f => { f with size := .alloc })
+  | .extend p =>
+    -- the size given to a fresh file is taken to be durable together with its directory
+    -- entry (journalled metadata): a never-synced log file is a file of zeros, not a
+    -- zero-length file
+    match aget p s.dir with
+    | some i => { s with data := aset i { (aget i s.data).getD {} with size := .alloc } s.data,
+                         ddata := aset i { chunks := [], size := .alloc } s.ddata }
+    | none => s
   | .append p c => s.modify p (fun f =>
       { chunks := f.chunks ++ [c], size := if f.size = .alloc then .alloc else .tight })
   | .zero _ => s
